@@ -125,6 +125,10 @@ _KW_BUILTINS: Dict[str, Any] = {
 }
 
 
+# pure builtins the constant folder of sa/consteval.py does not list
+_MORE_BUILTINS: Dict[str, Any] = {"format": format, "divmod": divmod, "ord": ord, "chr": chr, "pow": pow, "hasattr": hasattr, "getattr": getattr, "callable": callable, "ascii": ascii, "hash": hash}
+
+
 class Folder2(Folder):
     def child(self, extra: Dict[str, Any]) -> "Folder2":
         return Folder2(self.repo, self.module, {**self.local, **extra}, self.cls)
@@ -147,6 +151,8 @@ class Folder2(Folder):
             kw = self._kw(n)
             if set(kw) <= _KW_BUILTINS[f.id][1]:
                 return _KW_BUILTINS[f.id][0](*self._elts(n.args), **kw)
+        if isinstance(f, ast.Name) and not n.keywords and f.id in _MORE_BUILTINS and f.id not in self.local:
+            return _MORE_BUILTINS[f.id](*self._elts(n.args))
         if isinstance(f, ast.Name) and f.id == "iter" and len(n.args) == 1 and not n.keywords:
             return iter(list(self.fold(n.args[0])))  # a one-shot iterator over the elements present now
         if isinstance(f, ast.Name) and f.id == "next" and 1 <= len(n.args) <= 2 and not n.keywords and "next" not in self.local:
@@ -545,7 +551,7 @@ def func_callable(repo, module: str, fdef: ast.FunctionDef, outer: Optional[Dict
     """The function as a callable that interprets its own body with BlockEval2.  Free names are looked up in `outer`
     (by reference when `live`, as Python closures do) and then in the module's constants."""
     a = fdef.args
-    if a.vararg or a.kwarg or a.posonlyargs:
+    if a.kwarg or a.posonlyargs:
         raise Unknown(f"signature of {fdef.name}")
     params = [p.arg for p in a.args]
     kwonly = [p.arg for p in a.kwonlyargs]
@@ -554,9 +560,11 @@ def func_callable(repo, module: str, fdef: ast.FunctionDef, outer: Optional[Dict
 
     def call(*vals, **kw):
         env: Dict[str, Any] = dict(outer) if outer is not None else {}
-        if len(vals) > len(params):
+        if len(vals) > len(params) and not a.vararg:
             raise Unknown(f"arity of {fdef.name}")
         bound = dict(zip(params, vals))
+        if a.vararg:
+            bound[a.vararg.arg] = tuple(vals[len(params) :])  # *args
         for k, v in kw.items():
             if k not in params + kwonly or k in bound:
                 raise Unknown(f"keyword {k} of {fdef.name}")
@@ -615,3 +623,51 @@ def module_callables(repo, module: str, names: Optional[Iterable[str]] = None, o
             continue
     env.update({k: v for k, v in out.items() if k not in env})
     return out
+
+
+class Instance:
+    """An object of a repository class, interpreted: its fields are given by the rule, its methods and properties are evaluated from the
+    class body (methods of base classes defined in the same module included) when the fragment - or the rule - asks for them.
+    `cached_property` values are kept like the real descriptor does; a plain `property` is evaluated at every access."""
+
+    _folder_stub = True
+
+    def __init__(self, repo, module: str, cls: str, env: Optional[Dict[str, Any]] = None, **fields: Any):
+        self.__dict__["_I"] = (repo, module, cls, dict(env or {}))
+        self.__dict__.update(fields)
+
+    def __repr__(self) -> str:
+        return f"<{self._I[2]} stub>"
+
+    def _member(self, name: str):
+        repo, module, cls, env = self._I
+        m = repo.module(module)
+        todo, seen = [cls], set()
+        while todo:
+            c = todo.pop(0)
+            if c in seen or c not in m.classes:
+                continue
+            seen.add(c)
+            fi = m.funcs.get(f"{c}.{name}")
+            if fi is not None:
+                return fi
+            todo += [ast.unparse(b).split(".")[-1] for b in m.classes[c].bases]
+        return None
+
+    def __getattr__(self, name: str):
+        if name.startswith("__") or name == "_I":
+            raise AttributeError(name)
+        fi = self._member(name)
+        if fi is None:
+            raise AttributeError(name)
+        repo, module, cls, env = self._I
+        call = func_callable(repo, module, fi.node, env, max_steps=20000)
+        decs = fi.decorators
+        if "property" in decs or "cached_property" in decs:
+            v = call(self)
+            if "cached_property" in decs:
+                self.__dict__[name] = v
+            return v
+        if "staticmethod" in decs:
+            return call
+        return lambda *a, **k: call(self, *a, **k)
